@@ -21,16 +21,16 @@ def known_matcher(v, k):
     return False
 
 
-def run_alphabet(rep, alphabet, depth, d):
-    res = sc.gen_histories(alphabet, depth)
+def run_alphabet(rep, alphabet, depth, d, simulate=None, seed=None):
+    res = sc.gen_histories(alphabet, depth, emit="final" if simulate else "all", simulate=simulate, seed=seed)
     if res.violated:
         rep.violation({"kind": "spec-property", "property": res.violated, "alphabet": alphabet, "tlc": res.stdout[-2500:]})
         return
     rep.tlc_stats(res, "MC_Session %s depth %d" % (alphabet, depth))
     meta = res.cases["META"][0]
     cases = res.cases.get("CASE", [])
-    inp = os.path.join(d, "cases_%s.ndjson" % alphabet)
-    out = os.path.join(d, "out_%s.ndjson" % alphabet)
+    inp = os.path.join(d, "cases_%s_%s.ndjson" % (alphabet, depth))
+    out = os.path.join(d, "out_%s_%s.ndjson" % (alphabet, depth))
     nv.write_ndjson(inp, [{"id": i, "prelude": meta["prelude"], "modules": meta["modules"], "probes": meta["probes"],
                            "steps": [s["text"] for s in c["steps"]]} for i, c in enumerate(cases)])
     nv.harness("nv-session", ["session-run", "--cases", inp, "--out", out])
@@ -65,17 +65,20 @@ def run(tier, seed):
     nv.build_harness(["nv-session"])
     d = nv.scratch("c06")
     if tier == "quick":
-        plan = [("small", 2), ("names", 2), ("imports", 2)]
+        plan = [("small", 2, None), ("names", 2, None), ("imports", 2, None)]
     else:
-        plan = [("small", 3), ("names", 2), ("imports", 3)]
-    for alphabet, depth in plan:
-        run_alphabet(rep, alphabet, depth, d)
+        # exhaustive depth 2 over all alphabets, depth 3 over single-statement inputs, and long random histories
+        plan = [("small", 2, None), ("names", 2, None), ("imports", 2, None), ("okonly", 3, None),
+                ("small", 15, 2000), ("names", 15, 2000), ("imports", 15, 2000)]
+    for alphabet, depth, sim in plan:
+        run_alphabet(rep, alphabet, depth, d, simulate=sim, seed=seed)
     # design-level demonstration: without restoring the import list the property is violated in the spec
     res = sc.gen_histories("small", 2, rollback=False, emit="none", invariants="Bounded")
     rep.notes["spec_without_import_rollback_violates"] = res.violated
     if res.violated != "FailAtomic":
         raise nv.ToolError("vacuity self-test failed: FailAtomic not violated in the un-repaired rule (%s)" % res.violated)
-    rep.set("rule", "all histories of <= Depth inputs (1-2 statements each) over three alphabets of statement templates "
+    rep.set("rule", "all histories of <= Depth inputs (1-2 statements each; thorough adds depth 3 over single statements and 6 000 "
+            "TLC-simulated histories of 15 inputs) over three alphabets of statement templates "
             "(names/kinds, imports incl. nested/cyclic/broken modules, mixed); non-trivial = histories containing at "
             "least one failing input")
     rep.set("exhaustive", True)
